@@ -60,6 +60,8 @@ def value(draw, T, kind):
     if T == "MaxPlus":
         return draw(st.sampled_from(["-inf"] + [str(i) for i in range(-5, 4)]))
     if T == "MaxTimes":
+        if draw(st.integers(0, 7)) == 0:
+            return draw(st.sampled_from(["3000000000", "4000000000", "65536", "1/4000000000"]))  # counts / tiny probabilities
         return str(draw(st.fractions(min_value=0, max_value=3, max_denominator=8)))
     if T == "Log":
         # log-probabilities span hundreds of nats in practice (a 100-token string at p=0.01 is -460):
@@ -76,6 +78,11 @@ def star_operand(draw, T, kind):
     if T == "Boolean":
         return draw(st.sampled_from(["0", "1", "ZERO", "ONE"]))
     if T in ("Real", "Float"):
+        if draw(st.integers(0, 7)) == 0:
+            # close to divergence: 1 - 2^-k is exact both as a Fraction and as a float
+            k = draw(st.sampled_from([10, 20, 30, 44, 50]))
+            x = 1 - Fraction(1, 2**k)
+            return repr(float(x)) if kind == "float" else str(x)
         if kind == "float":
             return repr(draw(st.floats(min_value=-0.875, max_value=0.875, allow_nan=False, width=32)))
         return str(draw(st.fractions(min_value=Fraction(-7, 8), max_value=Fraction(7, 8), max_denominator=8)))
@@ -197,3 +204,13 @@ def check(case, ctx):
     st_ = (lambda: R.star(x))
     law("star_r", lambda: st_(), lambda: one + x * st_())
     law("star_l", lambda: st_(), lambda: one + st_() * x)
+
+    # in a field the equation s = 1 + x s has exactly one solution: the closed form of the series
+    if T in ("Real", "Float") and case["star"] not in ("ZERO", "ONE", "fresh0", "fresh1"):
+        xv = _scalar(case["star"])
+        closed = 1 / (1 - (Fraction(xv) if not isinstance(xv, float) else Fraction(xv)))
+        sv = ctx.call(f"{T}.star", st_)
+        if not isinstance(sv, LibRaised):
+            got = score(T, sv)
+            ok = (Fraction(got) == closed) if not isinstance(got, float) else abs(got - float(closed)) <= 1e-9 * abs(float(closed))
+            ctx.check(f"{T}.star_value", ok, lambda: f"{T}.star({case['star']}) = {got!r}, the series sums to {closed}")
